@@ -15,7 +15,7 @@ BUDGET = {"quick": 2000, "thorough": 100000}
 SHARDS = {"quick": 8, "thorough": 16}
 RULE = (
     "case = transform class (Logit, Probit, Periodic, Affine, Identity, Composite with every on/off combination of "
-    "periodic / bounded logit|probit / affine, FlowTransform) x namespace x width x bounds lower=m*10^a, width=10^b "
+    "periodic / bounded logit|probit / affine (periodic names listed in any order; optionally fitted before on data of another scale), FlowTransform) x namespace x width x bounds lower=m*10^a, width=10^b "
     "(a,b in [-3,6], subject to the constructor's own representability check) x batch (1..64 rows, 1..5 columns) x points "
     "placed by unit-interval coordinate u (uniform, log-spaced towards either bound down to the clipping margin, exactly "
     "eps and 1-eps, midpoint, and inside the margin where only finiteness is asserted; for wrapping any real up to 1e6 "
@@ -79,6 +79,10 @@ def _case(draw):
             case["rows"] = rows = max(rows, 3)
     if cls == "affine":
         case["rows"] = rows = max(rows, 3)
+    # histories on one object: a transform fitted before on data of another scale; periodic names listed in another order
+    case["refit"] = draw(st.booleans())
+    case["refit_scale"] = draw(st.sampled_from([1e-3, 0.1, 7.0, 300.0]))
+    case["order_seed"] = draw(st.integers(0, 2**31 - 1))
     # points: unit coordinates; for periodic columns any real number of periods
     us = []
     for _ in range(rows):
@@ -264,6 +268,8 @@ def _periodic_checks(case, ctx, t, x_arr, tag):
 def _affine_checks(case, ctx, t, x_arr, tag):
     eps = refmath.eps_of(case["width"])
     x = _np64(x_arr)
+    if case.get("refit"):
+        t.fit(_arr(case, x * case["refit_scale"] + 1.0))  # an earlier fit on data of another scale must leave no trace
     f = t.fit(x_arr)
     y_i, lj_i = t.forward(x_arr)
     if not np.array_equal(env.to_np(f), env.to_np(y_i), equal_nan=True):
@@ -398,7 +404,8 @@ def _composite(case, ctx, labels, x64, u):
         if case["cls"] == "flowtransform":
             c = T.FlowTransform(**kw)
         else:
-            c = T.CompositeTransform(periodic_parameters=[params[i] for i in per_cols], **kw)
+            order = list(np.random.default_rng(case.get("order_seed", 0)).permutation(len(per_cols))) if per_cols else []
+            c = T.CompositeTransform(periodic_parameters=[params[per_cols[i]] for i in order], **kw)
     except ValueError as e:
         if "floating precision" in str(e):
             return {"nontrivial": False, "labels": labels + ["rejected-by-constructor"]}
@@ -439,7 +446,16 @@ def _composite(case, ctx, labels, x64, u):
         zf = sub["affine"].fit(z)
         v, l = sub["affine"].forward(z)
         z = v; lj_parts = lj_parts + _np64(l)
-    # the composite itself
+    # the composite itself (optionally fitted before on other data: the second fit must fully replace the first)
+    if case.get("refit") and case["affine"]:
+        other = _np64(xa).copy()
+        for i in range(d):
+            if i not in per_cols and i not in bnd_cols:
+                other[:, i] = other[:, i] * case["refit_scale"] + 1.0
+            elif i in bnd_cols:
+                mid = 0.5 * (lo[i] + hi[i])
+                other[:, i] = mid + (other[:, i] - mid) * 0.25
+        c.fit(_arr(case, other))
     f = c.fit(xa)
     y_i, lj_i = c.forward(xa)
     if not np.array_equal(env.to_np(f), env.to_np(y_i), equal_nan=True):
